@@ -655,3 +655,91 @@ pub fn same_removed(a: &[v1::RemovedConstraint], b: &[v1::RemovedConstraint]) ->
     y.sort_by_key(key);
     x == y
 }
+
+// ---------------------------------------------------------------------------------------------
+// instances that come out of the SDK's own transformations
+
+/// Applies a random pipeline of 1-4 SDK transformations to a valid instance (log-encode an integer
+/// variable and substitute the encoding, fix a variable by partial evaluation, relax / restore a
+/// constraint, turn an inequality into an equality with an integer slack, convert to a minimisation,
+/// penalty method followed by instantiating the weights). A step that fails, panics or leaves an
+/// instance that does not validate is skipped. Used as a source of realistic input shapes for the
+/// monitors of other properties (each transformation has its own property).
+pub fn pipeline_instance(rng: &mut Rng, mut inst: v1::Instance) -> (v1::Instance, Vec<&'static str>) {
+    use ommx::Evaluate;
+    let mut steps = vec![];
+    for _ in 0..1 + rng.below(4) {
+        let step = rng.below(7);
+        let seed = rng.next_u64();
+        let start = inst.clone();
+        let r = crate::monitor::probe(move || -> Option<(v1::Instance, &'static str)> {
+            let mut rng = Rng::new(seed);
+            let mut i = start;
+            let dep_keys: BTreeSet<u64> = i.decision_variable_dependency.keys().cloned().collect();
+            match step {
+                0 => {
+                    let cand: Vec<u64> = i
+                        .decision_variables
+                        .iter()
+                        .filter(|v| v.kind == KIND_INTEGER && v.substituted_value.is_none() && !dep_keys.contains(&v.id))
+                        .filter(|v| v.bound.as_ref().map_or(false, |b| b.lower.is_finite() && b.upper.is_finite() && b.upper - b.lower <= 64.0))
+                        .map(|v| v.id)
+                        .collect();
+                    let id = *cand.get(rng.usize_below(cand.len().max(1)))?;
+                    let lin = i.log_encode(id).ok()?;
+                    let mut m = HashMap::new();
+                    m.insert(id, v1::Function::from(lin));
+                    i.substitute(m).ok()?;
+                    Some((i, "log_encode+substitute"))
+                }
+                1 => {
+                    let cand: Vec<&v1::DecisionVariable> = i.decision_variables.iter().filter(|v| v.substituted_value.is_none() && !dep_keys.contains(&v.id)).collect();
+                    let v = *cand.get(rng.usize_below(cand.len().max(1)))?;
+                    let st = state([(v.id, value_in_bound(&mut rng, v, Regime::D))]);
+                    i.partial_evaluate(&st).ok()?;
+                    Some((i, "partial_evaluate"))
+                }
+                2 => {
+                    let id = i.constraints.get(rng.usize_below(i.constraints.len().max(1)))?.id;
+                    i.relax_constraint(id, "pipeline".into(), Default::default()).ok()?;
+                    Some((i, "relax_constraint"))
+                }
+                3 => {
+                    let id = i.removed_constraints.get(rng.usize_below(i.removed_constraints.len().max(1)))?.constraint.as_ref()?.id;
+                    i.restore_constraint(id).ok()?;
+                    Some((i, "restore_constraint"))
+                }
+                4 => {
+                    let cand: Vec<u64> = i.constraints.iter().filter(|c| c.equality == LE_ZERO).map(|c| c.id).collect();
+                    let id = *cand.get(rng.usize_below(cand.len().max(1)))?;
+                    i.convert_inequality_to_equality_with_integer_slack(id, 4096).ok()?;
+                    Some((i, "inequality->equality+slack"))
+                }
+                5 => {
+                    i.as_minimization_problem();
+                    Some((i, "as_minimization_problem"))
+                }
+                _ => {
+                    if i.constraints.is_empty() || i.constraints.len() > 3 {
+                        return None;
+                    }
+                    let pi = if rng.bool() { i.penalty_method() } else { i.uniform_penalty_method() }.ok()?;
+                    let w = parameters(pi.parameters.iter().map(|p| (p.id, *rng.pick(&[1.0, 2.0, 0.5]))));
+                    Some((pi.with_parameters(w).ok()?, "penalty+with_parameters"))
+                }
+            }
+        });
+        if let Ok(Some((i, name))) = r {
+            if i.validate().is_ok() {
+                inst = i;
+                steps.push(name);
+            }
+        }
+    }
+    (inst, steps)
+}
+
+/// variables that a state must not give: fixed ones and the keys of the dependency map
+pub fn fixed_or_dependent(inst: &v1::Instance) -> BTreeSet<u64> {
+    inst.decision_variables.iter().filter(|v| v.substituted_value.is_some()).map(|v| v.id).chain(inst.decision_variable_dependency.keys().cloned()).collect()
+}
